@@ -78,3 +78,49 @@ CLAIMS = {
                 note="constructor arguments of inferred variables (C11) are outside this check; T1, T3 tree-shape assumptions"),
 }
 NOT_APPLICABLE = {}
+
+
+# ---------------------------------------------------------------------------------------------------------------------
+# Bounded stand-ins (native, real package): labelled `bounded` in the evidence, never counted as discharged.  They cover
+# what the deductive obligations do not state (order / multiplicity of rows) and serve as the fall-back when a changed
+# function leaves the verifier's subset.
+def _oracle(label, cases_quick, cases_thorough, **family):
+    return {'label': label, 'family': family, 'cases': (cases_quick, cases_thorough)}
+
+
+ORACLES = {
+    'C01': [_oracle('single-variable, and/or/not', 250, 3000, nvars=1, depth=3, neg=True, nested_neg=True)],
+    'C02': [_oracle('two variables, join conditions', 150, 2000, nvars=2, depth=2, neg=False, vocab=['cmp', 'name']),
+            _oracle('three variables', 40, 600, nvars=3, depth=2, neg=False, vocab=['cmp'], n=2),
+            _oracle('selected variables and attribute expressions, one row per assignment', 100, 1500, kind='select')],
+    'C03': [_oracle('nested negation, one variable', 200, 3000, nvars=1, depth=3, neg=True, nested_neg=True),
+            _oracle('nested negation, two variables', 100, 1500, nvars=2, depth=2, neg=True, nested_neg=True)],
+    'C06': [_oracle('the() vs number of solutions, evaluated twice', 200, 3000, kind='the'),
+            _oracle('the() over equal-looking distinct instances', 60, 600, kind='the', equal_instances=True),
+            _oracle('the() evaluated inside a symbolic block', 60, 600, kind='the', inside='query')],
+    'C08': [_oracle('interleavings of blocks and result iterators', 150, 3000, kind='modes', steps=10)],
+    'C09': [_oracle('predicates evaluated under interleaved modes', 150, 3000, kind='modes', steps=8, predicates=True),
+            _oracle('the() with predicates, inside a rule block', 80, 800, kind='the', inside='rule', vocab=['pred', 'cmp'], n=4),
+            _oracle('the() with predicates, inside a query block', 80, 800, kind='the', inside='query', vocab=['pred', 'cmp'], n=4),
+            _oracle('an() with predicates and attribute conditions', 100, 1500, nvars=1, depth=2, vocab=['pred', 'cmp', 'name'], neg=True)],
+    'C15': [_oracle('an(entity) sub-query as a condition, and/or', 150, 2000, kind='subquery')],
+    'C16': [_oracle('flatten, parent selected, no condition', 40, 400, kind='flatten', with_cond=False, select_parent=True),
+            _oracle('flatten, parent selected, condition', 40, 400, kind='flatten', with_cond=True, select_parent=True),
+            _oracle('flatten only, condition', 40, 400, kind='flatten', with_cond=True, select_parent=False, falsy=True)],
+    'C19': [_oracle('falsy attribute values as operands', 200, 3000, nvars=1, depth=2, falsy=True, neg=True, nested_neg=True),
+            _oracle('falsy / None values as selected outputs', 100, 1500, kind='select', single_attr=True)],
+}
+
+
+def standins(prop, tier):
+    out = []
+    for o in ORACLES.get(prop, []):
+        out.append({'name': 'oracle', 'label': o['label'], 'bound': 'random small scope, see scope',
+                    'args': {'family': o['family'], 'label': o['label'], 'cases': o['cases'][0 if tier == 'quick' else 1],
+                             'budget_s': 60 if tier == 'quick' else 900}, 'timeout': 1200})
+    if prop == 'C20':
+        out.append({'name': 'C20_cache', 'label': 'IndexedCache insert/check/retrieve, exhaustive',
+                    'bound': 'exhaustive: 2 keys (quick) / 3 keys (thorough), alphabet 2, <= 2 / 3 inserts, every lookup',
+                    'args': {'nkeys': 2, 'max_inserts': 2} if tier == 'quick' else {'nkeys': 3, 'max_inserts': 3, 'budget_s': 600},
+                    'timeout': 1200})
+    return out
